@@ -2,7 +2,7 @@
    Model: coq/C14/Model.v (hand-written, tied to /repo by the correspondence run of checks/c14.py). *)
 From Coq Require Import ZArith List Bool Lia.
 Import ListNotations.
-From Verif Require Import C14.Model C14.Proofs C14.Loops C14.Vis.
+From Verif Require Import C14.Model C14.Proofs C14.Loops C14.Vis C14.Reach C14.Spec.
 Open Scope Z_scope.
 
 (* a small file system used by the witnesses: <root>/p with a.incn, a/b.incn, c/mod.incn, d.incan,
@@ -75,6 +75,16 @@ Print Assumptions C14_module_resolver_agrees_refuted.
 Theorem C14_lsp_meets_spec : forall fs d i, k_multi i = false -> rip fs d i = spec_resolve fs d i.
 Proof. exact lsp_meets_spec. Qed.
 Print Assumptions C14_lsp_meets_spec.
+
+(*     ... and the CLI implements it for imports that stand in the entry's directory, outside the
+       mod-file and relative-entry classes ([as_from i] = the import rewritten as `from <module> import ..`) *)
+Theorem C14_cli_meets_spec : forall fs cwd ab b d i,
+  k_nested (rl cwd ab b) d = false ->
+  k_modonly fs d (I KFrom (iabs i) (ilevels i) (msegs i)) = false ->
+  k_underflow fs cwd ab b i = false ->
+  option_map fst (cli_resolve fs cwd ab b i) = spec_resolve fs d i.
+Proof. exact cli_meets_spec. Qed.
+Print Assumptions C14_cli_meets_spec.
 
 (* P4  one well-defined file: the result of every resolver depends only on the SET of directory
        entries (not on listing order or duplicates), is a file of that set, and is the first
@@ -181,3 +191,51 @@ Theorem C14_only_imported_names_visible_refuted :
   check_entry vdeps [] [VI (I KModule false 0 [10]) [] None] [UName 31] = [].
 Proof. vm_compute. reflexivity. Qed.
 Print Assumptions C14_only_imported_names_visible_refuted.
+
+(* P7  what the work lists compute: exactly the files reachable from the entry through the
+       respective resolver (CLI: resolver based at the entry directory, reflexive closure;
+       LSP: shared resolver based at each importing file's directory, at least one step) *)
+Theorem C14_collectors_compute_reachable : forall fs imps cwd ab b stem e fuel,
+  (forall rc, cli_collect fuel fs imps cwd ab b stem e = Done rc ->
+     forall q, In q (map fst rc) <->
+               reach (fun p q => exists i it, In i (imps p) /\ cli_resolve fs cwd ab b i = Some it /\ fst it = q)
+                     (P (rl cwd ab b) stem e) q) /\
+  (forall rl_, lsp_collect fuel fs imps (P (rl cwd ab b) stem e) = Done rl_ ->
+     forall q, In q rl_ <->
+               reach1 (fun p q => exists i, In i (imps p) /\ rip fs (pdir p) i = Some q)
+                      (P (rl cwd ab b) stem e) q).
+Proof.
+  intros. split; intros r H.
+  - exact (cli_collect_reach fs imps cwd ab b stem e fuel r H).
+  - exact (lsp_collect_reach fs imps _ fuel r H).
+Qed.
+Print Assumptions C14_collectors_compute_reachable.
+
+(* P8  whole projects: if every file that contains imports lies in the entry's directory and no
+       import is in one of the three classes, the CLI and the LSP load exactly the same
+       dependency files (with fuel |fs|+1 both finish, by P5) *)
+Theorem C14_collect_agree : forall fs imps cwd ab b stem e fuel rc rl_,
+  (forall p i, In i (imps p) ->
+     pdir p = rl cwd ab b /\ k_multi i = false /\ k_modonly fs (rl cwd ab b) i = false /\
+     k_underflow fs cwd ab b i = false) ->
+  cli_collect fuel fs imps cwd ab b stem e = Done rc ->
+  lsp_collect fuel fs imps (P (rl cwd ab b) stem e) = Done rl_ ->
+  forall q, q <> P (rl cwd ab b) stem e -> (In q (map fst rc) <-> In q rl_).
+Proof.
+  intros fs imps cwd ab b stem e fuel rc rl_ H. apply collect_agree.
+  intros p i Hi. destruct (H p i Hi) as [Hd [H1 [H2 H3]]]. rewrite Hd. apply cli_lsp_agree; assumption.
+Qed.
+Print Assumptions C14_collect_agree.
+
+(* its hypotheses hold for a three-file flat project with a cycle, and both sides load b and c *)
+Definition flat_fs : fsys := [File (P [100] 10 Incn); File (P [100] 11 Incn); File (P [100] 12 Incn)].
+Definition flat_imps : path -> list import :=
+  imps_of [(P [100] 10 Incn, [I KFrom false 0 [11]]); (P [100] 11 Incn, [I KFrom false 0 [12]; I KFrom false 0 [99]]);
+           (P [100] 12 Incn, [I KFrom false 0 [11]])].
+Example C14_collect_agree_nonvacuous :
+  cli_collect (fuel_of flat_fs) flat_fs flat_imps [] true [100] 10 Incn
+    = Done [(P [100] 12 Incn, [12]); (P [100] 11 Incn, [11]); (P [100] 10 Incn, [MAIN])] /\
+  lsp_collect (fuel_of flat_fs) flat_fs flat_imps (P [100] 10 Incn) = Done [P [100] 11 Incn; P [100] 12 Incn] /\
+  forallb (fun p => forallb (fun i => negb (k_multi i) && negb (k_modonly flat_fs [100] i) && negb (k_underflow flat_fs [] true [100] i))
+                            (flat_imps p)) (files flat_fs) = true.
+Proof. vm_compute. repeat split; reflexivity. Qed.
